@@ -220,8 +220,16 @@ func (ev *Evaluator) Call(f *Func, argv []Value, ctx Value) (Value, *Err) {
 func (ev *Evaluator) callLambda(f *Func, argv []Value) (Value, *Err) {
 	if f.Typed {
 		var err *Err
+		orig := argv
 		argv, err = f.fitSignature(argv)
 		if err != nil {
+			if f.FitsDeclaratively(orig) {
+				if f.canonicalOptions() {
+					ev.FittingCallsRejected++
+				} else {
+					ev.FittingCallsRejectedNonCanonical++
+				}
+			}
 			return Undef, err
 		}
 	}
@@ -236,11 +244,100 @@ func (ev *Evaluator) callLambda(f *Func, argv []Value) (Value, *Err) {
 	return ev.eval(f.Body, f.Ctx, env)
 }
 
+// FitsDeclaratively reports whether the argument list fits the signature in
+// the declarative sense of the property: there is an assignment of the
+// arguments, in order, to the parameters in which a plain parameter takes one
+// argument, a '?' parameter one or none, a '-' parameter one or (when the
+// context item has the parameter's type) none, a '+' parameter one or more,
+// and every argument has its parameter's type ('no value' has every type).
+func (f *Func) FitsDeclaratively(argv []Value) bool {
+	ps := f.Sig
+	ok := func(p Param, a Value) bool {
+		if IsUndef(a) {
+			return true
+		}
+		if p.Types == "a" {
+			a = arrayify(a)
+		}
+		return validArgType(a, p)
+	}
+	var match func(pi, ai int) bool
+	match = func(pi, ai int) bool {
+		if pi == len(ps) {
+			return ai == len(argv)
+		}
+		p := ps[pi]
+		switch p.Opt {
+		case '?':
+			if match(pi+1, ai) {
+				return true
+			}
+			return ai < len(argv) && ok(p, argv[ai]) && match(pi+1, ai+1)
+		case '-':
+			if ai < len(argv) && ok(p, argv[ai]) && match(pi+1, ai+1) {
+				return true
+			}
+			return !IsUndef(f.Ctx) && ok(p, f.Ctx) && match(pi+1, ai)
+		case '+':
+			for k := ai; k < len(argv) && ok(p, argv[k]); k++ {
+				if match(pi+1, k+1) {
+					return true
+				}
+			}
+			return false
+		}
+		return ai < len(argv) && ok(p, argv[ai]) && match(pi+1, ai+1)
+	}
+	return match(0, 0)
+}
+
+// canonicalOptions: '-' only on the first parameter, '?' only on a suffix of
+// the parameters, '+' only on the last one. The port honours the options in
+// these places only.
+func (f *Func) canonicalOptions() bool {
+	ps := f.Sig
+	seenOpt := false
+	for i, p := range ps {
+		switch p.Opt {
+		case '-':
+			if i != 0 {
+				return false
+			}
+		case '+':
+			if i != len(ps)-1 {
+				return false
+			}
+		}
+		if p.Opt == '?' {
+			seenOpt = true
+		} else if seenOpt && !(p.Opt == '+' && i == len(ps)-1) {
+			return false
+		}
+	}
+	return true
+}
+
+// fitSignature mirrors the port's positional algorithm: the context is
+// inserted when there are fewer arguments than parameters and the first
+// parameter is contextable; if the arguments do not fit that way, the other
+// choice is tried before the first error is returned.
 func (f *Func) fitSignature(argv []Value) ([]Value, *Err) {
 	ps := f.Sig
-	argc := len(argv)
+	contextable := len(ps) > 0 && ps[0].Opt == '-'
+	use := contextable && len(argv) < len(ps)
+	out, err := f.fitSignatureWith(argv, use)
+	if err != nil && contextable {
+		if out2, err2 := f.fitSignatureWith(argv, !use); err2 == nil {
+			return out2, nil
+		}
+	}
+	return out, err
+}
+
+func (f *Func) fitSignatureWith(argv []Value, useCtx bool) ([]Value, *Err) {
+	ps := f.Sig
 	pc := len(ps)
-	if argc < pc && pc > 0 && ps[0].Opt == '-' {
+	if useCtx {
 		argv = append([]Value{f.Ctx}, argv...)
 	}
 	for i := len(argv); i < pc; i++ {
